@@ -457,7 +457,12 @@ class P:
                     self.eat()
                     pats.append(None)
                 else:
-                    pats.append(self.expr())
+                    save_ = self.i
+                    p_ = self.binop(4, False)  # `a | b` in a pattern separates alternatives, it is not a bit-or
+                    if not (self.at("|") or self.at("=>")):
+                        self.i = save_
+                        p_ = self.expr()
+                    pats.append(p_)
                 if self.at("|"):
                     self.eat()
                     continue
@@ -754,6 +759,7 @@ TRAITS = set()
 STRUCTS = {}
 TUPLE_STRUCTS = {}  # `struct Name<..>(T0, T1, ..);`: name -> [("0", T0), ("1", T1), ..] (fields are addressed as `.0`, `.1`)
 MACROS = {}
+REP_MACROS = {}  # `macro_rules! m { [$($x:expr,)*] => { [$( TEMPLATE ,)*] }; }`: name -> (x, template tokens)
 BLOCK_SIZES = {}
 KEY_SIZES = {}
 ASSOC_TYPES = {}
@@ -823,6 +829,11 @@ def find_functions(path, cfg=()):
                 continue
             MACROS.setdefault((path, m.group(2)), (params, lex(body[bstart + 1:bend - 1])[:-1]))
             MACROS.setdefault(m.group(2), (params, lex(body[bstart + 1:bend - 1])[:-1]))
+        except Unsupported:
+            pass
+    for m in re.finditer(r"macro_rules!\s*(\w+)\s*\{\s*\[\s*\$\(\s*\$(\w+)\s*:\s*expr\s*,\s*\)\s*\*\s*\]\s*=>\s*\{\s*\[\s*\$\((.*?),\s*\)\s*\*\s*\]\s*\}\s*;?\s*\}", src, re.S):
+        try:
+            REP_MACROS.setdefault(m.group(1), (m.group(2), lex(m.group(3))[:-1]))
         except Unsupported:
             pass
     spans = []
@@ -960,6 +971,11 @@ WIDTH = {"u8": 8, "u16": 16, "u32": 32, "u64": 64, "u128": 128, "usize": 64, "i3
 # element 0 in the least significant bits (see Prelude/X86Intrinsics.lean, Prelude/ArmIntrinsics.lean)
 VEC_TYPES = {"__m128i": 128, "uint8x16_t": 128, "uint32x4_t": 128}
 WIDTH.update(VEC_TYPES)
+# signed integers: modelled by the same `BitVec n` (two's complement, wrapping `+ - *` and the bitwise operations coincide
+# with the unsigned ones); only the comparisons differ (`BitVec.slt` / `BitVec.sle`).  Sign extension (widening cast of a
+# signed value), arithmetic shift right and signed division are not supported (-> Unsupported).  Overflow of the signed
+# arithmetic (a panic in debug builds) is not modelled here, like every other arithmetic overflow (property C20).
+SIGNED = {"i32", "i64"}
 
 # extern table: intrinsics of core::arch -> the Lean transcription of the vendor manual in the Prelude.
 #   argument kinds: vN = a value of N bits; imm8 = compile-time constant in 0..=255 passed as `BitVec 8`;
@@ -1009,6 +1025,58 @@ class BV:
     def par(self):
         s = self.lean()
         return s if self.atom or self.const is not None else f"({s})"
+
+    # --- data-dependent control flow (select) ---------------------------------------------------
+    signed = False   # the Rust type is `i32`/`i64`: same bits (two's complement), comparisons are signed (`BitVec.slt`)
+    ub = None        # a proven upper bound of the (unsigned) value, None = 2^w - 1 (interval analysis for `while` exits)
+    isbool = False
+
+    def named(self, name):
+        """the same value under a `let` name"""
+        v = BV(self.w, name)
+        v.signed, v.ub = self.signed, self.ub
+        return v
+
+    def hi(self):
+        if self.const is not None:
+            return self.const
+        if self.ub is not None:
+            return self.ub
+        return (1 << self.w) - 1 if self.w else None
+
+    def lo(self):
+        return self.const if self.const is not None else 0
+
+
+class BoolV(BV):
+    """a data-dependent `bool`: `lean()` is a Lean `Bool` term, `prop` the same test as a decidable `Prop`
+    (the form used as the condition of `if … then … else …`, e.g. `x = 0x0#32`)"""
+    isbool = True
+
+    def __init__(self, lean, prop=None, atom=False):
+        BV.__init__(self, 1, lean, None, atom)
+        self.prop = prop if prop is not None else f"{lean} = true"
+
+    def named(self, name):
+        return BoolV(name, f"{name} = true", atom=True)
+
+
+class ResV:
+    """a `Result<(), E>` whose variant depends on data: `is_err` (BoolV or constant) — returned as a Lean `Bool`,
+    `true` = `Err(_)`"""
+
+    def __init__(self, is_err):
+        self.is_err = is_err
+
+
+class Frame:
+    """one function activation: the data-dependent conditions of the branches being executed (`path`), the early
+    `return`s recorded under such conditions (`early`: condition, value, state at the return) and the slots that
+    outlive the activation (`roots`: reachable from the arguments)"""
+
+    def __init__(self):
+        self.path, self.early, self.roots = [], [], None
+        self.ret_w = None  # width of the integer the function returns (types the untyped literals of `return 2;`)
 
 
 class Slot:
@@ -1101,6 +1169,9 @@ class Exec:
         self.depth = 0
         self.want_ty = {}   # id(expression node) -> type expected by its context (`let x: T = e`, tail expression of a fn)
         self.fn_stack = []  # names of the functions being executed (resolution of nested fns)
+        self.frames = [Frame()]  # activations (data-dependent control flow, see `select`)
+        self.sel_depth = 0       # > 0 while a branch of a data-dependent `if`/`match`/`while` is being executed
+        self.defs = {}           # Rust fn -> (Lean definition name template, params fixed to constants): emitted as calls
 
     # ---- naming / emission ------------------------------------------------------------------
     def fresh(self, base):
@@ -1118,7 +1189,7 @@ class Exec:
                 return v
             name = self.fresh(base)
             self.lines.append(f"  let {name} := {v.lean()}")
-            return BV(v.w, name)
+            return v.named(name)
         return v
 
     # ---- types ------------------------------------------------------------------------------
@@ -1523,7 +1594,11 @@ class Exec:
                 if v.w is None:
                     raise Unsupported("! on untyped literal")
                 return BV(v.w, const=(~v.const) & ((1 << v.w) - 1))
-            return BV(v.w, f"~~~{v.par()}", atom=False)
+            if v.isbool:
+                return self.bool_not(v)
+            r_ = BV(v.w, f"~~~{v.par()}", atom=False)
+            r_.signed = v.signed
+            return r_
         if k == "neg":
             v = self.scalar(self.eval(e[1], env, want))
             if v.const is not None and v.w is None:
@@ -1560,6 +1635,10 @@ class Exec:
         if k == "if":
             c = self.eval(e[1], env)
             c = self.deref_all(c)
+            if isinstance(c, BoolV):
+                # data-dependent condition: both branches are executed, the states are merged (`select`)
+                return self.select(c, lambda: self.run_block(e[2], dict(env), scoped_env=env),
+                                   (lambda: self.run_block(e[3], dict(env), scoped_env=env)) if e[3] is not None else (lambda: None), env, want)
             if not (isinstance(c, BV) and c.const is not None):
                 raise Unsupported("`if` on a data-dependent condition")
             br = e[2] if c.const else e[3]
@@ -1567,7 +1646,10 @@ class Exec:
                 return None
             return self.run_block(br, dict(env), scoped_env=env)
         if k == "match":
-            s = self.const_of(self.eval(e[1], env))
+            sv_ = self.deref_all(self.eval(e[1], env))
+            if isinstance(sv_, BV) and sv_.const is None and not sv_.isbool and sv_.w is not None:
+                return self.match_data(sv_, e[2], env, want)
+            s = self.const_of(sv_)
             for pats, body in e[2]:
                 for p in pats:
                     if p is None or self.const_of(self.eval(p, env)) == s:
@@ -1575,12 +1657,15 @@ class Exec:
             raise Unsupported("match without a matching arm")
         if k == "loop":
             for _ in range(100000):
+                n_early = len(self.frames[-1].early)
                 try:
                     self.run_block(e[1], dict(env), scoped_env=env)
                 except Break:
                     return None
                 except Continue:
                     pass
+                if len(self.frames[-1].early) != n_early:
+                    raise Unsupported("`loop` with a data-dependent exit")
             raise Unsupported("loop does not terminate under constant folding")
         if k == "macro":
             if e[1] in ("debug_assert", "debug_assert_eq", "debug_assert_ne", "assert", "assert_eq", "assert_ne"):
@@ -1601,6 +1686,34 @@ class Exec:
                 raise Unsupported("unreachable! reached")
             if e[1] in MACROS:
                 return self.expand_macro(e[1], e[2], env, want)
+            if e[1] in REP_MACROS:
+                # `m![a, b, …]` -> `[T(a), T(b), …]`
+                var, tmpl = REP_MACROS[e[1]]
+                groups, cur, d = [], [], 0
+                for tk in e[2]:
+                    if tk[0] == "op" and tk[1] in "([{":
+                        d += 1
+                    elif tk[0] == "op" and tk[1] in ")]}":
+                        d -= 1
+                    if tk == ("op", ",") and d == 0:
+                        groups.append(cur)
+                        cur = []
+                    else:
+                        cur.append(tk)
+                if cur:
+                    groups.append(cur)
+                items = []
+                for g in groups:
+                    out_, i_ = [], 0
+                    while i_ < len(tmpl):
+                        if tmpl[i_] == ("op", "$") and i_ + 1 < len(tmpl) and tmpl[i_ + 1][1] == var:
+                            out_ += [("op", "(")] + g + [("op", ")")]
+                            i_ += 2
+                        else:
+                            out_.append(tmpl[i_])
+                            i_ += 1
+                    items.append(P(out_ + [("eof", "")]).expr())
+                return self.eval(("array", items), env, want)
             raise Unsupported(f"macro {e[1]}!")
         if k == "structlit":
             ty = self.self_ty if e[1] == "Self" else e[1]
@@ -1908,11 +2021,31 @@ class Exec:
         if t[0] == "name" and t[1] in WIDTH:
             v = self.scalar(v)
             w = WIDTH[t[1]]
+            sg = t[1] in SIGNED
+            if v.isbool and v.const is None:
+                # `u8::from(b)` / `b as u8`
+                r_ = BV(w, f"if {v.prop} then 0x1#{w} else 0x0#{w}", atom=False)
+                r_.ub, r_.signed = 1, sg
+                return r_
             if v.const is not None:
-                return BV(w, const=v.const & ((1 << w) - 1))
+                r_ = BV(w, const=v.const & ((1 << w) - 1))
+                if sg:
+                    if v.signed and v.w is not None and v.w < w:
+                        raise Unsupported("widening cast of a signed constant")
+                    r_.signed = True
+                return r_
+            if v.signed and v.w < w:
+                raise Unsupported("widening cast of a signed value (sign extension)")
             if v.w == w:
-                return v
-            return BV(w, f"{v.par()}.setWidth {w}", atom=False)
+                if v.signed == sg:
+                    return v
+                r_ = BV(w, v._lean, atom=v.atom)  # `as i32` / `as u32`: the same bits, the other comparison
+                r_.ub, r_.signed = v.ub, sg
+                return r_
+            r_ = BV(w, f"{v.par()}.setWidth {w}", atom=False)
+            r_.ub = min(v.hi(), (1 << w) - 1)
+            r_.signed = sg
+            return r_
         raise Unsupported(f"cast to {t}")
 
     OPS = {"^": "^^^", "&": "&&&", "|": "|||", "+": "+", "-": "-", "*": "*", "<<": "<<<", ">>": ">>>"}
@@ -1931,12 +2064,22 @@ class Exec:
             if a.w is None:
                 raise Unsupported("shift of an untyped literal by data")
             amt = str(b.const) if b.const is not None else b.par()
-            return BV(a.w, f"{a.par()} {self.OPS[op]} {amt}", atom=False)
+            if a.isbool or b.isbool:
+                raise Unsupported("shift of a bool")
+            if a.signed and op == ">>":
+                raise Unsupported("arithmetic shift right of a signed value")
+            r_ = BV(a.w, f"{a.par()} {self.OPS[op]} {amt}", atom=False)
+            r_.signed = a.signed
+            if op == ">>" and b.const is not None:
+                r_.ub = a.hi() >> b.const
+            return r_
         if op in ("==", "!=", "<", ">", "<=", ">=", "&&", "||"):
             a = self.scalar(self.eval(l, env))
             b = self.scalar(self.eval(r, env, a.w))
             if a.const is None or b.const is None:
-                raise Unsupported("comparison of data-dependent values")
+                return self.compare(op, a, b)
+            if a.signed or b.signed:
+                return self.compare(op, a, b)
             res = {"==": a.const == b.const, "!=": a.const != b.const, "<": a.const < b.const, ">": a.const > b.const,
                    "<=": a.const <= b.const, ">=": a.const >= b.const, "&&": bool(a.const and b.const),
                    "||": bool(a.const or b.const)}[op]
@@ -1947,6 +2090,13 @@ class Exec:
             a = BV(b.w, const=a.const)
         if b.w is None and a.w is not None:
             b = BV(a.w, const=b.const)
+        if a.w != b.w and a.w is not None and b.w is not None:
+            # rustc guarantees equal operand types: a constant of another width is a loop counter (typed 64 bits by the
+            # translator); its value is exact, it is re-typed when it fits (otherwise Unsupported below)
+            if a.const is not None and not a.signed and a.const < (1 << b.w) and (b.const is None or a.w == 64):
+                a = BV(b.w, const=a.const)
+            elif b.const is not None and not b.signed and b.const < (1 << a.w) and (a.const is None or b.w == 64):
+                b = BV(a.w, const=b.const)
         if a.w != b.w:
             raise Unsupported(f"operands of `{op}` have widths {a.w} and {b.w}")
         if a.const is not None and b.const is not None:
@@ -1962,7 +2112,382 @@ class Exec:
             return BV(a.w, const=val)
         if op in ("/", "%"):
             raise Unsupported("division of data-dependent values")
-        return BV(a.w, f"{a.par()} {self.OPS[op]} {b.par()}", atom=False)
+        if a.isbool or b.isbool:
+            return self.bool_binop(op, a, b)
+        r_ = BV(a.w, f"{a.par()} {self.OPS[op]} {b.par()}", atom=False)
+        r_.signed = a.signed or b.signed
+        if op == "&":
+            r_.ub = min(a.hi(), b.hi())
+        return r_
+
+    # ---- data-dependent control flow: conditions ------------------------------------------------------
+    def bool_not(self, v):
+        if v.const is not None:
+            return BV(1, const=int(not v.const))
+        if getattr(v, "neg_of", None) is not None:
+            return v.neg_of
+        r_ = BoolV(f"!{v.par()}", f"¬({v.prop})")
+        r_.neg_of = v
+        return r_
+
+    def as_bool(self, v):
+        if v.isbool or (v.const is not None and v.w in (1, None) and v.const in (0, 1)):
+            return v
+        raise Unsupported("bool expected")
+
+    def bool_binop(self, op, a, b):
+        """`&&` `||` (and `&` `|` `^` on bools) with at least one data-dependent operand.  Both operands have been
+        evaluated: the right operand of a lazy `&&`/`||` is an expression without side effects in the supported subset
+        (a call that assigns through `&mut` inside it would be executed unconditionally: not checked)."""
+        a, b = self.as_bool(a), self.as_bool(b)
+        op = {"&": "&&", "|": "||"}.get(op, op)
+        if op not in ("&&", "||", "^"):
+            raise Unsupported(f"`{op}` on bools")
+        if op == "^":
+            if a.const is not None:
+                return self.bool_not(b) if a.const else b
+            if b.const is not None:
+                return self.bool_not(a) if b.const else a
+            return BoolV(f"{a.par()} != {b.par()}", f"¬(({a.prop}) ↔ ({b.prop}))")
+        for x, y in ((a, b), (b, a)):
+            if x.const is not None:
+                if op == "&&":
+                    return y if x.const else BV(1, const=0)
+                return BV(1, const=1) if x.const else y
+        if op == "&&":
+            return BoolV(f"{a.par()} && {b.par()}", f"({a.prop}) ∧ ({b.prop})")
+        return BoolV(f"{a.par()} || {b.par()}", f"({a.prop}) ∨ ({b.prop})")
+
+    def compare(self, op, a, b):
+        """a comparison with a data-dependent operand -> BoolV; folded when the interval analysis decides it"""
+        if op in ("&&", "||"):
+            return self.bool_binop(op, a, b)
+        if a.isbool or b.isbool:
+            raise Unsupported("comparison of bools")
+        if a.w is None:
+            a = BV(b.w, const=a.const)
+        if b.w is None:
+            b = BV(a.w, const=b.const)
+        if a.w != b.w and a.w is not None and b.w is not None:
+            # rustc guarantees that both operands have the same type: a constant carrying another width is a loop counter /
+            # literal typed by the translator's default; its value is exact, so it is re-typed if it fits
+            if a.const is not None and b.const is None and a.const < (1 << b.w) and not a.signed:
+                a = BV(b.w, const=a.const)
+            elif b.const is not None and a.const is None and b.const < (1 << a.w) and not b.signed:
+                b = BV(a.w, const=b.const)
+        if a.w != b.w or a.w is None:
+            raise Unsupported(f"comparison of widths {a.w} and {b.w}")
+        w = a.w
+        signed = a.signed or b.signed
+        if signed:
+            def sv(x):
+                return x.const - (1 << w) if x.const >= (1 << (w - 1)) else x.const
+            if a.const is not None and b.const is not None:
+                x, y = sv(a), sv(b)
+                return BV(1, const=int({"==": x == y, "!=": x != y, "<": x < y, ">": x > y, "<=": x <= y, ">=": x >= y}[op]))
+        else:
+            al, ah, bl, bh = a.lo(), a.hi(), b.lo(), b.hi()
+            dec = {"==": (False if ah < bl or bh < al else None),
+                   "!=": (True if ah < bl or bh < al else None),
+                   "<": (True if ah < bl else False if al >= bh else None),
+                   "<=": (True if ah <= bl else False if al > bh else None),
+                   ">": (True if al > bh else False if ah <= bl else None),
+                   ">=": (True if al >= bh else False if ah < bl else None)}[op]
+            if dec is not None:
+                return BV(1, const=int(dec))
+        x, y = a.par(), b.par()
+        if op == "==":
+            return BoolV(f"{x} == {y}", f"{x} = {y}")
+        if op == "!=":
+            r_ = BoolV(f"{x} != {y}", f"¬({x} = {y})")
+            r_.neg_of = BoolV(f"{x} == {y}", f"{x} = {y}")
+            return r_
+        if op in (">", ">="):
+            x, y, op = y, x, {">": "<", ">=": "<="}[op]
+        if signed:
+            f_ = {"<": "BitVec.slt", "<=": "BitVec.sle"}[op]
+            return BoolV(f"{f_} {x} {y}", f"{f_} {x} {y} = true")
+        f_ = {"<": "BitVec.ult", "<=": "BitVec.ule"}[op]
+        return BoolV(f"{f_} {x} {y}", f"{x} {'<' if op == '<' else '≤'} {y}")
+
+    def path_cond(self, frame):
+        c = BV(1, const=1)
+        for cc, pol in frame.path:
+            c = self.bool_binop("&&", c, cc if pol else self.bool_not(cc))
+        return c
+
+    # ---- data-dependent control flow: select -----------------------------------------------------------
+    def reachable_slots(self, roots):
+        """every Slot reachable from the values `roots` (dict name -> Slot or a list of values): [(slot, hint)]"""
+        out, seen = [], set()
+        stack = [(v, k) for k, v in roots.items()] if isinstance(roots, dict) else [(v, "t") for v in roots]
+        stack.reverse()
+        while stack:
+            v, hint = stack.pop()
+            if v is None or isinstance(v, (BV, str, int, Table, ResV)):
+                continue
+            if id(v) in seen:
+                continue
+            seen.add(id(v))
+            if isinstance(v, Slot):
+                out.append((v, hint))
+                stack.append((v.v, hint))
+            elif isinstance(v, Ref):
+                stack.append((v.slot, hint))
+            elif isinstance(v, Arr):
+                for i, s_ in reversed(list(enumerate(v.slots))):
+                    stack.append((s_, f"{hint}{i}"))
+            elif isinstance(v, Struct):
+                for fn_, s_ in reversed(list(v.fields.items())):
+                    stack.append((s_, fn_ if hint == "self" else f"{hint}_{fn_}"))
+            elif isinstance(v, InOutV):
+                stack += [(v.out_slot, hint), (v.out, hint), (v.inp, hint)]
+            elif isinstance(v, RawPtr):
+                stack += [(c_, hint) for c_ in reversed(v.cells)]
+            elif isinstance(v, Lanes):
+                stack += [(c_, hint) for c_ in reversed(v.lanes)]
+            elif isinstance(v, dict):
+                stack += [(x, k) for k, x in reversed(list(v.items()))]
+            elif isinstance(v, tuple) and v and v[0] == "closure":
+                stack.append((v[3], hint))  # the captured environment
+            elif isinstance(v, tuple) and v and v[0] in ("range", "phantom"):
+                pass
+            elif isinstance(v, (tuple, list)):
+                stack += [(x, hint) for x in reversed(v) if not isinstance(x, (str, int))]
+            else:
+                raise Unsupported(f"select: value of kind {type(v).__name__} in the environment")
+        return out
+
+    def merge(self, c, t, e, hint="t"):
+        """the value `if c then t else e`"""
+        if t is e:
+            return t
+        if isinstance(t, ResV) or isinstance(e, ResV):
+            def err_of(x):
+                if isinstance(x, Arr) and not x.slots:
+                    x = ResV(BV(1, const=0))  # Ok(())
+                if isinstance(x, ResV):
+                    b_ = x.is_err
+                    if not b_.isbool:
+                        b_ = BV(1, const=b_.const)
+                        b_.isbool = True
+                    return b_
+                raise Unsupported("select between Err(_) and a value that is not Ok(())")
+            return ResV(self.merge(c, err_of(t), err_of(e), "is_err"))
+        if isinstance(t, Ref) and isinstance(e, Ref):
+            if t.slot is e.slot:
+                return t
+            raise Unsupported("select between references to different places")
+        if t is None or e is None:
+            return None  # a variable assigned on one path only: not definitely initialised afterwards (rustc rejects reads)
+        if isinstance(t, Lanes):
+            t = self.lanes_value(t)
+        if isinstance(e, Lanes):
+            e = self.lanes_value(e)
+        if isinstance(t, BV) and isinstance(e, BV):
+            if t.isbool or e.isbool:
+                t, e = self.as_bool(t), self.as_bool(e)
+                if t.const is not None and e.const is not None:
+                    if t.const == e.const:
+                        return t
+                    return c if t.const else self.bool_not(c)
+                tp = ("True" if t.const else "False") if t.const is not None else t.prop
+                ep = ("True" if e.const else "False") if e.const is not None else e.prop
+                tb = ("true" if t.const else "false") if t.const is not None else t.par()
+                eb = ("true" if e.const else "false") if e.const is not None else e.par()
+                return BoolV(f"if {c.prop} then {tb} else {eb}", f"if {c.prop} then {tp} else {ep}")
+            if t.w is None:
+                t = BV(e.w, const=t.const)
+            if e.w is None:
+                e = BV(t.w, const=e.const)
+            if t.w != e.w:
+                raise Unsupported(f"select between widths {t.w} and {e.w}")
+            if t.const is not None and t.const == e.const:
+                return t
+            if t.const is None and e.const is None and t.lean() == e.lean():
+                return t
+            if t.w is None:
+                raise Unsupported("select between untyped literals")
+            r_ = BV(t.w, f"if {c.prop} then {t.par()} else {e.par()}", atom=False)
+            r_.signed = t.signed or e.signed
+            r_.ub = max(t.hi(), e.hi())
+            return self.bind(hint, r_)
+        if isinstance(t, Arr) and isinstance(e, Arr) and len(t.slots) == len(e.slots):
+            r_ = Arr([Slot(self.merge(c, a_.v, b_.v, f"{hint}{i}")) for i, (a_, b_) in enumerate(zip(t.slots, e.slots))])
+            r_.newtype = t.newtype
+            return r_
+        if isinstance(t, Struct) and isinstance(e, Struct) and t.ty == e.ty and list(t.fields) == list(e.fields):
+            return Struct(t.ty, {k_: Slot(self.merge(c, t.fields[k_].v, e.fields[k_].v, k_)) for k_ in t.fields})
+        raise Unsupported(f"select between {type(t).__name__} and {type(e).__name__}")
+
+    def freeze(self, v):
+        """the value of a branch, detached from the slots the other branch is going to overwrite"""
+        if isinstance(v, Arr) or isinstance(v, Lanes):
+            return self.copy(v)
+        if isinstance(v, Struct):
+            return Struct(v.ty, {k_: Slot(self.freeze(s_.v)) for k_, s_ in v.fields.items()})
+        return v
+
+    def typed(self, v, w):
+        """an untyped literal takes the width its context expects"""
+        if isinstance(v, BV) and v.w is None and v.const is not None and w and 0 <= v.const < (1 << w):
+            return BV(w, const=v.const)
+        return v
+
+    def select(self, c, then_fn, else_fn, env, want=None):
+        """`if c { then } else { else }` on a data-dependent `c`: BOTH branches are executed (their `let`s are emitted one
+        after the other: every emitted term is total, so computing the branch not taken is harmless), each on the state
+        before the `if`; afterwards every slot whose value differs holds `if c then vThen else vElse`.
+        A `return` inside one branch is recorded in the activation frame (condition = conjunction of the enclosing
+        conditions) together with the state at that point; the rest of the function is executed as the other path and
+        `finish_frame` selects between the recorded returns and the final result.  `break`/`continue` under a
+        data-dependent condition are not supported."""
+        frame = self.frames[-1]
+        slots = self.reachable_slots(env)
+        before = [s_.v for s_, _ in slots]
+        res = []
+        for pol, fn_ in ((True, then_fn), (False, else_fn)):
+            for (s_, _), v_ in zip(slots, before):
+                s_.v = v_
+            frame.path.append((c, pol))
+            self.sel_depth += 1
+            try:
+                try:
+                    r_, ret = self.freeze(fn_()), False
+                except Return as ret_:
+                    r_, ret = self.freeze(ret_.v), True
+                except (Break, Continue):
+                    raise Unsupported("break/continue under a data-dependent condition")
+            finally:
+                frame.path.pop()
+                self.sel_depth -= 1
+            res.append((r_, ret, [s_.v for s_, _ in slots]))
+        (rT, retT, aT), (rE, retE, aE) = res
+        rT = self.typed(rT, frame.ret_w if retT else want)
+        rE = self.typed(rE, frame.ret_w if retE else want)
+        if retT != retE:
+            # `if c { …; return e1; } rest`: the returning path is set aside, execution continues as the other path
+            frame.path.append((c, retT))
+            try:
+                cond = self.path_cond(frame)
+            finally:
+                frame.path.pop()
+            if frame.roots is None and getattr(frame, "env0", None) is not None:
+                frame.roots = {id(s_) for s_, _ in self.reachable_slots(frame.env0)}
+            keep = frame.roots
+            r_, a_ = (rT, aT) if retT else (rE, aE)
+            frame.early.append((cond, r_, [(s_, v_) for (s_, _), v_ in zip(slots, a_) if keep is None or id(s_) in keep]))
+            for (s_, _), v_ in zip(slots, aE if retT else aT):
+                s_.v = v_
+            return rE if retT else rT
+        known = {id(s_) for s_, _ in slots}
+        for (s_, h_), vt, ve in zip(slots, aT, aE):
+            if vt is not ve and any(isinstance(x_, (Arr, Struct, InOutV, RawPtr)) for x_ in (vt, ve)):
+                # a branch put another aggregate into the slot: merged element-wise only if the new aggregates are
+                # fresh objects (their elements are not slots that the two branches have both written)
+                if any(id(q_) in known for x_ in (vt, ve) for q_, _ in self.reachable_slots([x_])):
+                    raise Unsupported("a branch of a data-dependent `if` re-binds an aggregate that shares storage")
+            s_.v = vt if vt is ve else self.merge(c, vt, ve, h_)
+        r_ = self.merge(c, rT, rE, "sel")
+        if retT:
+            raise Return(r_)
+        return r_
+
+    def finish_frame(self, frame, r):
+        """function exit: `if c1 then r1 else if c2 then r2 … else r` over the recorded early returns, for the result and
+        for every slot that outlives the activation"""
+        for cond, v_, snap in reversed(frame.early):
+            r = self.merge(cond, self.typed(v_, frame.ret_w), self.typed(r, frame.ret_w), "ret")
+            for s_, sv_ in snap:
+                if s_.v is not sv_:
+                    s_.v = self.merge(cond, sv_, s_.v, "t")
+        frame.early = []
+        return r
+
+    def match_data(self, sv, arms, env, want):
+        """`match x { p0 | p1 => a, …, _ => z }` on a data-dependent integer: `if x = p0 ∨ x = p1 then a else …`"""
+        if not sv.atom:
+            sv = self.bind("m", sv)
+
+        def go(i):
+            if i == len(arms):
+                raise Unsupported("data-dependent match without a catch-all arm")
+            pats, body = arms[i]
+            if any(p_ is None for p_ in pats):
+                return self.eval(body, env, want)
+            c = BV(1, const=0)
+            for p_ in pats:
+                pv = self.scalar(self.eval(p_, env, sv.w))
+                if pv.const is None:
+                    raise Unsupported("match pattern is not a constant")
+                c = self.bool_binop("||", c, self.compare("==", sv, pv))
+            if c.const is not None:
+                return self.eval(body, env, want) if c.const else go(i + 1)
+            return self.select(c, lambda: self.eval(body, env, want), lambda: go(i + 1), env, want)
+        return go(0)
+
+    def while_data(self, cond_e, body, env, c, depth=0):
+        """`while c { body }` on a data-dependent `c` = `if c { body; while c { body } }`, unrolled until the condition
+        folds to `false` (decided by constants and by the interval analysis: e.g. `while a > 0 { …; a >>= 1; }`); no
+        bound established within 64 iterations -> Unsupported (never a guess)"""
+        if depth >= 64:
+            raise Unsupported("`while` on a data-dependent condition: termination not established within 64 iterations")
+
+        def then_():
+            d_ = depth
+            while True:
+                try:
+                    self.run_block(body, dict(env))
+                except (Break, Continue):
+                    raise Unsupported("break/continue in a `while` on a data-dependent condition")
+                c2 = self.scalar(self.eval(cond_e, env))
+                if c2.const is None:
+                    self.while_data(cond_e, body, env, self.as_bool(c2), d_ + 1)
+                    return None
+                if not c2.const:
+                    return None
+                d_ += 1
+                if d_ >= 64:
+                    raise Unsupported("`while`: termination not established within 64 iterations")
+        n_early = len(self.frames[-1].early)
+        self.select(c, then_, lambda: None, env)
+        if len(self.frames[-1].early) != n_early:
+            raise Unsupported("`return` inside a `while` on a data-dependent condition")
+
+    def call_def(self, fn, actual, spec):
+        """a call emitted as a call of the generated definition of the callee (`defs=` of the target) instead of being
+        inlined: integer arguments and result only; parameters listed in `spec[1]` must be compile-time constants and
+        select the definition (`…_{i}`)"""
+        tmpl, fixed = spec
+        fx, parts = {}, []
+        for (pat, t), v in zip(fn.params, actual):
+            if t[0] == "self":
+                continue  # the definition was generated with `noself`: the method does not read `self`
+            pname = pat[1] if pat[0] == "pid" else None
+            rt = self.resolve(t)
+            if not (rt[0] == "name" and rt[1] in WIDTH and pname):
+                raise Unsupported(f"call of the definition of {fn.name}: parameter of type {rt}")
+            v = self.scalar(v)
+            if v.w is None:
+                v = BV(WIDTH[rt[1]], const=v.const)
+            if v.w != WIDTH[rt[1]] or v.isbool:
+                raise Unsupported(f"call of the definition of {fn.name}: argument width {v.w}")
+            if pname in fixed:
+                fx[pname] = self.const_of(v)
+            else:
+                parts.append(v.par())
+        rt = self.resolve(fn.ret) if fn.ret is not None else None
+        if not (rt and rt[0] == "name" and rt[1] in WIDTH and rt[1] != "bool"):
+            raise Unsupported(f"call of the definition of {fn.name}: result type {rt}")
+        lean = tmpl.format(**fx)
+        tgt = def_target(lean)
+        key = f"{fn.owner}::{fn.name}" if getattr(fn, "owner", None) else fn.name
+        if tgt is None or tgt["fn"].split("::")[-1] != fn.name or tgt["fn"] not in (key, fn.name, "::" + fn.name) \
+                or {k_: int(v_) for k_, v_ in (tgt.get("fixed") or {}).items()} != fx or tgt.get("crate", "").replace("-", "_") != self.crate:
+            raise Unsupported(f"no generated definition `{lean}` of {key}")
+        r_ = BV(WIDTH[rt[1]], f"BC.Gen.Fn.{lean} {' '.join(parts)}", atom=False)
+        r_.signed = rt[1] in SIGNED
+        return self.bind(fn.name + "_r", r_)
 
     def mcall(self, e, env, want):
         recv_e, name, args = e[1], e[2], e[3]
@@ -1971,6 +2496,10 @@ class Exec:
             return self.iterator(e, env)
         recv = self.eval(recv_e, env, want)
         rv = self.deref_all(recv)
+        if isinstance(rv, ResV):
+            raise Unsupported(f".{name}() on a data-dependent Result")
+        if isinstance(rv, BV) and rv.const is None and (rv.isbool or rv.signed):
+            raise Unsupported(f".{name}() on a data-dependent bool / signed integer")
         if isinstance(rv, InOutV):
             if name == "get_in":
                 return Ref(Slot(rv.inp))
@@ -2264,6 +2793,8 @@ class Exec:
         if name in ("Ok", "Some") and len(args) == 1 and len(p) == 1:
             return self.eval(args[0], env, want)
         if name == "Err" and len(p) == 1:
+            if self.sel_depth > 0:
+                return ResV(BV(1, const=1))  # on a data-dependent path: merged with the `Ok(())` of the other paths
             raise Unsupported("the function returns Err(…) on this input shape")
         if len(p) >= 2 and p[-2] in WIDTH and name == "default":
             return BV(WIDTH[p[-2]], const=0)
@@ -2291,6 +2822,8 @@ class Exec:
                         self.self_ty = saved
         if len(p) == 1 and name in self.fns and getattr(self.fns[name], "owner", None) and f"::{name}" in self.fns:
             name = f"::{name}"  # a bare call `f(…)` names the free function, not a method `T::f`
+        if len(p) >= 2 and p[-2] in ("super", "crate") and name in self.fns and getattr(self.fns[name], "owner", None) and f"::{name}" in self.fns:
+            name = f"::{name}"  # `super::f(…)` / `crate::f(…)`: a module-level function, not a method of the same name
         if name in self.fns:
             fn = self.fns[name]
             actual = []
@@ -2302,6 +2835,10 @@ class Exec:
         raise Unsupported(f"call to unknown function {'::'.join(p)}")
 
     def inline(self, fn, actual, keep_self=False):
+        if self.defs:
+            spec = self.defs.get(f"{fn.owner}::{fn.name}" if getattr(fn, "owner", None) else fn.name) or self.defs.get(fn.name)
+            if spec:
+                return self.call_def(fn, actual, spec)
         unbound = [g for g in getattr(fn, "cgen", []) if not isinstance(self.generics.get(g), int)]
         if unbound:
             if len(unbound) > 1:
@@ -2376,15 +2913,23 @@ class Exec:
                 v = self.copy(v.slot.v)
             self.bind_pat(pat, v, env)
         self.depth += 1
+        frame = Frame()
+        frame.env0 = dict(env)  # `roots` is computed from it when the first early return is recorded
+        rt_ = self.resolve(fn.ret) if fn.ret is not None else None
+        frame.ret_w = WIDTH.get(rt_[1]) if rt_ and rt_[0] == "name" else None
+        self.frames.append(frame)
         try:
             try:
                 r = self.run_block(fn.body, env)
             except Return as ret:
                 r = ret.v
+            if frame.early:
+                r = self.finish_frame(frame, r)
         finally:
+            self.frames.pop()
             self.depth -= 1
             self.self_ty = saved_self
-        if isinstance(r, BV) and r.const is None and not r.atom:
+        if isinstance(r, BV) and r.const is None and not r.atom and not r.isbool:
             r = self.bind(fn.name + "_r", r)  # name the result once: callers may use it several times
         return r
 
@@ -2493,7 +3038,13 @@ class Exec:
             elif k == "while":
                 n = 0
                 try:
-                    while self.const_of(self.eval(st[1], env)):
+                    while True:
+                        wc_ = self.deref_all(self.eval(st[1], env))
+                        if isinstance(wc_, BoolV):
+                            self.while_data(st[1], st[2], env, wc_)
+                            break
+                        if not self.const_of(wc_):
+                            break
                         n += 1
                         if n > 100000:
                             raise Unsupported("while does not terminate")
@@ -2571,7 +3122,12 @@ LEAN_KEYWORDS -= {"t", "e"}
 # ------------------------------------------------------------------------------------------------ driver
 def flatten(v, out, ex):
     v = ex.deref_all(v)
-    if isinstance(v, BV):
+    if isinstance(v, ResV):
+        b_ = v.is_err  # `Result<(), E>` decided by data: a `Bool`, `true` = `Err(_)`
+        if b_.const is None and not isinstance(b_, BoolV):
+            raise Unsupported("Result: the variant is not a bool")
+        out.append(b_ if b_.const is None else BoolV("true" if b_.const else "false", atom=True))
+    elif isinstance(v, BV):
         out.append(v)
     elif isinstance(v, Lanes):
         out.append(ex.bind("reg", ex.lanes_value(v)))
@@ -2589,7 +3145,7 @@ def flatten(v, out, ex):
         raise Unsupported(f"cannot return {type(v).__name__}")
 
 
-def translate(crate, path, fname, lean_name, lens=None, cfg=(), extra_files=(), doc="", packed=(), outs_only=(), pack_out=0, generics=None, self_ty=None, fields=None, types=None, fixed=None):
+def translate(crate, path, fname, lean_name, lens=None, cfg=(), extra_files=(), doc="", packed=(), outs_only=(), pack_out=0, generics=None, self_ty=None, fields=None, types=None, fixed=None, noself=False, defs=None):
     """returns (lean text, signature description) or raises Unsupported"""
     fns, consts, aliases, errs = find_functions(os.path.join(REPO, path), cfg)
     # siblings: every other source file of the crate (the file of the function itself takes precedence)
@@ -2620,9 +3176,14 @@ def translate(crate, path, fname, lean_name, lens=None, cfg=(), extra_files=(), 
     ex.field_consts = dict(fields or {})
     ex.generics = dict(generics or {})
     ex.self_ty = self_ty or getattr(fn, "owner", None)
+    ex.defs = dict(defs or {})
     inputs, env, muts = [], {}, []
     for pat, t in fn.params:
         pname = pat[1] if pat[0] == "pid" else (pat[1][1] if pat[0] == "pref" and pat[1][0] == "pid" else "p")
+        if noself and t[0] == "self":
+            # a method that does not read `self` (`Idea::mul`): no arguments for the fields; any access is Unsupported
+            env["self"] = Slot(Struct(ex.self_ty, {}))
+            continue
         rt = ex.resolve(t)
         if fixed and pname in fixed and rt[0] == "name" and rt[1] in WIDTH:
             # an integer parameter fixed to a constant for this target (e.g. RC2's `eff_key_len`)
@@ -2642,24 +3203,31 @@ def translate(crate, path, fname, lean_name, lens=None, cfg=(), extra_files=(), 
             continue
         ex.bind_pat(pat, v, env)
     ex.fn_stack.append(fn.name)
+    ex.frames[0].env0 = dict(env)
+    rt_ = ex.resolve(fn.ret) if fn.ret is not None else None
+    ex.frames[0].ret_w = WIDTH.get(rt_[1]) if rt_ and rt_[0] == "name" else None
     if fn.body and fn.body[-1][0] == "expr" and not fn.body[-1][2] and fn.ret is not None:
         ex.want_ty[id(fn.body[-1][1])] = fn.ret
     try:
         r = ex.run_block(fn.body, env)
     except Return as ret:
         r = ret.v
+    if ex.frames[0].early:
+        r = ex.finish_frame(ex.frames[0], r)
     outs = []
     for m in muts:
         flatten(m, outs, ex)
     flatten(r, outs, ex)
     if not outs:
         raise Unsupported("function has no outputs")
+    if any(o.signed for o in outs):
+        raise Unsupported("signed integer output")
     if pack_out:
         if len(outs) % pack_out or any(o.w != 8 for o in outs):
             raise Unsupported("pack_out: outputs are not groups of bytes")
         outs = [BV(8 * pack_out, " ++ ".join(o.par() for o in outs[i:i + pack_out]), atom=False) for i in range(0, len(outs), pack_out)]
     args = " ".join(f"({n} : BitVec {w})" for n, w in inputs)
-    rty = " × ".join(f"BitVec {o.w}" for o in outs)
+    rty = " × ".join("Bool" if o.isbool else f"BitVec {o.w}" for o in outs)
     res = "(" + ", ".join(o.lean() for o in outs) + ")" if len(outs) > 1 else outs[0].lean()
     cfgtxt = f" under cfg {list(cfg)}" if cfg else ""
     auxtxt = ""
@@ -2894,6 +3462,49 @@ AES_FILES["Aes_Armv8"] = intrinsics_targets(
     lambda kw: [T("aes", "aes/src/armv8/expand.rs", "expand_key", f"armv8_expand_key_{l}_{n}", packed=("key",), generics={"L": l, "N": n}, **kw)
                 for l, n in ((16, 11), (24, 13), (32, 15))],
     "inv_expanded_keys")
+
+
+# ---- functions with data-dependent `if` / `match` / `while` (select) -------------------------------------------------
+IDEA = "idea/src/lib.rs"
+TWO = "twofish/src/lib.rs"
+IDEA_DEFS = {"Idea::mul": ("idea_mul", ()), "Idea::add": ("idea_add", ())}
+TWO_DEFS = {"gf_mult": ("twofish_gf_mult", ()), "sbox": ("twofish_sbox_{i}", ("i",)),
+            "mds_column_mult": ("twofish_mds_column_mult_{column}", ("column",))}
+FN_FILES = {
+    "Fn_Idea": [T("idea", IDEA, "Idea::mul", "idea_mul", noself=True), T("idea", IDEA, "Idea::add", "idea_add", noself=True),
+                T("idea", IDEA, "Idea::add_inv", "idea_add_inv", noself=True)],
+    "Fn_Weak": (
+        [T("aes", "aes/src/lib.rs", "weak_key_test", f"aes_weak_key_test_{n}", generics={"N": n}, packed=("key",)) for n in (16, 24, 32)]
+        + [T("des", "des/src/lib.rs", "same_des_key"), T("des", "des/src/lib.rs", "::weak_key_test", "des_weak_key_test"),
+           T("des", "des/src/des.rs", "Des::weak_key_test", "des_des_weak_key_test", packed=("key",))]
+        + [T("des", "des/src/tdes.rs", f"{t}::weak_key_test", f"des_{t.lower()}_weak_key_test", packed=("key",))
+           for t in ["TdesEde3", "TdesEde2", "TdesEee3", "TdesEee2"]]),
+    "Fn_Twofish": (
+        [T("twofish", TWO, "gf_mult")]
+        + [T("twofish", TWO, "sbox", f"twofish_sbox_{i}", fixed={"i": i}, extra_files=("twofish/src/consts.rs",)) for i in (0, 1)]
+        + [T("twofish", TWO, "mds_column_mult", f"twofish_mds_column_mult_{c}", fixed={"column": c}, defs=TWO_DEFS) for c in range(4)]
+        + [T("twofish", TWO, "mds_mult", defs=TWO_DEFS),
+           T("twofish", TWO, "rs_mult", lens={"m": 8, "out": 4}, outs_only=("out",), defs=TWO_DEFS)]
+        + [T("twofish", TWO, "h", f"twofish_h_{k}_{o}", lens={"m": 8 * k}, packed=("m",), fixed={"k": k, "offset": o}, defs=TWO_DEFS)
+           for k in (2, 3, 4) for o in (0, 1)]),
+}
+AES_FILES.update(FN_FILES)
+CIPHER_TARGETS = CIPHER_TARGETS + M("idea", IDEA, "Idea", "idea", defs=IDEA_DEFS, imports=("BlockCiphers.Gen.Fn_Idea",))
+KEY_TARGETS = KEY_TARGETS + K("idea", IDEA, "Idea::expand_key", "idea_expand_key")
+# Twofish: `start` (0, 1, 2 for 32-, 24-, 16-byte keys) selects the q-boxes of `g_func`: one definition per value
+CIPHER_TARGETS = CIPHER_TARGETS + sum([M("twofish", TWO, "Twofish", f"twofish_s{st}", fields={"start": st}, defs=TWO_DEFS,
+                                         imports=("BlockCiphers.Gen.Fn_Twofish",)) for st in (0, 1, 2)], [])
+KEY_TARGETS = KEY_TARGETS + sum([K("twofish", TWO, "Twofish::new_from_slice", f"twofish_new_from_slice_{n}", lens={"key": n}, defs=TWO_DEFS,
+                                   imports=("BlockCiphers.Gen.Fn_Twofish",)) for n in (16, 24, 32)], [])
+
+
+def def_target(lean):
+    """the target that generates the definition `lean` (for calls emitted as calls, `defs=`)"""
+    for ts in [TARGETS, CIPHER_TARGETS, KEY_TARGETS] + list(AES_FILES.values()):
+        for t in ts:
+            if t["lean"] == lean:
+                return t
+    return None
 
 
 def cipher_files():
